@@ -8,18 +8,22 @@
    the wire (13.17, 13.20, 13.22) and compares their fields with the caller's
    arguments; the simulated BMC's verdict on RAKP 3 and on every in-session
    packet comes from the key terms of Crypto.tla. *)
-EXTENDS Wire, Json, IOUtils, TLC, FiniteSets
+EXTENDS Wire, Json, IOUtils, TLC, FiniteSets, MetricsLaw
 
 Trace == ndJsonDeserialize(IOEnv.VERIF_TRACE)
 Cfg   == JsonDeserialize(IOEnv.VERIF_TRACECFG)
 Known == Cfg.known
 
-VARIABLES l, viol, info, phase, exp, args, lastTx, seqN, ivs, sessOK, lastRaw
-vars == <<l, viol, info, phase, exp, args, lastTx, seqN, ivs, sessOK, lastRaw>>
+VARIABLES l, viol, info, phase, exp, args, lastTx, seqN, ivs, sessOK, lastRaw, prevM, mcall
+vars == <<l, viol, info, phase, exp, args, lastTx, seqN, ivs, sessOK, lastRaw, prevM, mcall>>
+NoCall == [kind |-> "none", name |-> "", err |-> FALSE, ntx |-> 0, codes |-> <<>>]
+DialCall == [NoCall EXCEPT !.kind = "dial"]
+NoM == [nometrics |-> 0]
 \* phase: "idle" | "open" (inside NewV2Session) | "cmd" (inside an in-session command)
 NoRec == [none |-> TRUE]
 Init == /\ l = 1 /\ viol = {} /\ info = NoRec /\ phase = "idle" /\ exp = NoRec /\ args = NoRec
         /\ lastTx = [ptype |-> -1, raw |-> <<>>] /\ seqN = 0 /\ ivs = {} /\ sessOK = FALSE /\ lastRaw = <<>>
+        /\ prevM = NoM /\ mcall = NoCall
 
 Ev == Trace[l]
 Has(r, f) == f \in DOMAIN r
@@ -120,26 +124,53 @@ SessionViol(e) ==
 
 NewViol == LET e == Ev IN
   IF e.ev = "tx" THEN (IF phase = "open" THEN OpenTxViol(e) ELSE IF phase = "cmd" THEN CmdTxViol(e) ELSE {})
-  ELSE IF e.ev = "ret" THEN (IF e.api = "NewV2Session" THEN OpenRetViol(e) ELSE CmdRetViol(e))
+  ELSE IF e.ev = "ret" THEN (IF e.api = "NewV2Session" THEN OpenRetViol(e)
+                             ELSE IF e.api = "Raw" /\ Has(e, "exp") /\ e.exp.outcome = "value" THEN CmdRetViol(e)
+                             ELSE Check("C05", "no-panic-no-hang", ~Has(e, "panic") /\ ~Has(e, "hang")))
   ELSE IF e.ev = "session" THEN SessionViol(e)
   ELSE IF e.ev \in {"harnessError", "prefixFailed"} THEN Check("HARNESS", e.ev, FALSE)
+  ELSE IF e.ev = "metrics" /\ prevM # NoM /\ mcall.kind # "none"
+       THEN LET bad == BadKeys(prevM, e.m, mcall) IN
+            IF bad = {} THEN {} ELSE {[prop |-> "C18", pred |-> "counters-change-by-exactly-what-happened",
+                                       ctx |-> [keys |-> bad, kind |-> mcall.kind, err |-> mcall.err]]}
   ELSE {}
 
 \* ------------------------------------------------------------ observer steps
+MKind(api) == CASE api = "NewV2Session" -> "open" [] api = "NewSession" -> "open" [] api = "Close" -> "close"
+                [] api = "ConnClose" -> "connclose" [] OTHER -> "command"
+MName(api) == IF api = "Close" THEN "Close Session" ELSE "Raw"
 Step ==
   LET e == Ev IN
   CASE e.ev = "reset" -> /\ info' = (IF Has(e, "info") THEN e.info ELSE NoRec) /\ phase' = "idle" /\ exp' = NoRec /\ args' = NoRec
                          /\ lastTx' = [ptype |-> -1, raw |-> <<>>] /\ seqN' = 0 /\ ivs' = {} /\ sessOK' = FALSE /\ lastRaw' = <<>>
-    [] e.ev = "call" -> /\ phase' = (IF e.api = "NewV2Session" THEN "open" ELSE "cmd")
+                         /\ prevM' = NoM /\ mcall' = NoCall
+    [] e.ev = "call" -> /\ phase' = (IF e.api \in {"NewV2Session", "NewSession"} THEN "open" ELSE IF e.api = "ConnClose" THEN "idle" ELSE "cmd")
                         /\ exp' = (IF Has(e, "exp") THEN e.exp ELSE NoRec) /\ args' = (IF Has(e, "args") THEN e.args ELSE NoRec)
                         /\ lastTx' = [ptype |-> -1, raw |-> <<>>]
-                        /\ UNCHANGED <<info, seqN, ivs, sessOK, lastRaw>>
+                        /\ mcall' = [kind |-> MKind(e.api), name |-> MName(e.api), err |-> FALSE, ntx |-> 0, codes |-> <<>>]
+                        /\ UNCHANGED <<info, seqN, ivs, sessOK, lastRaw, prevM>>
     [] e.ev = "tx" -> /\ lastTx' = [ptype |-> (IF Len(e.raw) >= 6 THEN e.raw[6] % 64 ELSE -1), raw |-> e.raw]
                       /\ seqN' = (IF phase = "cmd" THEN seqN + 1 ELSE seqN)
                       /\ ivs' = (IF phase = "cmd" /\ Len(e.raw) >= 32 THEN ivs \cup {Sub(e.raw, 16, 32)} ELSE ivs)
-                      /\ UNCHANGED <<info, phase, exp, args, sessOK, lastRaw>>
-    [] e.ev = "ret" -> /\ phase' = "idle" /\ UNCHANGED <<info, exp, args, lastTx, seqN, ivs, sessOK, lastRaw>>
-    [] OTHER -> UNCHANGED <<info, phase, exp, args, lastTx, seqN, ivs, sessOK, lastRaw>>
+                      /\ mcall' = [mcall EXCEPT !.ntx = @ + 1]
+                      /\ UNCHANGED <<info, phase, exp, args, sessOK, lastRaw, prevM>>
+    [] e.ev = "rx" -> /\ mcall' = (IF Has(e, "attrs") /\ Has(e.attrs, "valid") /\ e.attrs.valid /\ mcall.kind \in {"command", "close"}
+                                   THEN [mcall EXCEPT !.codes = Append(@, e.attrs.code)] ELSE mcall)
+                      /\ UNCHANGED <<info, phase, exp, args, lastTx, seqN, ivs, sessOK, lastRaw, prevM>>
+    [] e.ev = "ret" -> /\ phase' = "idle"
+                       \* failures count SendCommand errors; Close() also turns a non-normal completion code into an
+                       \* error (ValidateResponse), which is not a command failure (v2sessionless.go: SendCommand comment)
+                       /\ mcall' = (IF ~Has(e, "err") THEN mcall
+                                    ELSE IF mcall.kind = "close" /\ mcall.codes # <<>> /\ mcall.codes[Len(mcall.codes)] \notin {192, 195}
+                                         THEN [mcall EXCEPT !.err = FALSE]
+                                         ELSE [mcall EXCEPT !.err = e.err])
+                       \* a new session numbers its packets from 1 again
+                       /\ seqN' = (IF e.api \in {"NewV2Session", "NewSession"} /\ Has(e, "err") /\ ~e.err THEN 0 ELSE seqN)
+                       /\ ivs' = (IF e.api \in {"NewV2Session", "NewSession"} /\ Has(e, "err") /\ ~e.err THEN {} ELSE ivs)
+                       /\ UNCHANGED <<info, exp, args, lastTx, sessOK, lastRaw, prevM>>
+    [] e.ev = "metrics" -> /\ prevM' = e.m /\ mcall' = (IF e.at = "start" THEN DialCall ELSE NoCall)
+                           /\ UNCHANGED <<info, phase, exp, args, lastTx, seqN, ivs, sessOK, lastRaw>>
+    [] OTHER -> UNCHANGED <<info, phase, exp, args, lastTx, seqN, ivs, sessOK, lastRaw, prevM, mcall>>
 
 IsKnown(v) == \E i \in 1..Len(Known) : LET k == Known[i] IN k.prop = v.prop /\ k.pred = v.pred
 Next == /\ l <= Len(Trace)
